@@ -327,6 +327,12 @@ func c16WithPorts(c *config.PikeConfig, ports map[string]int) *config.PikeConfig
 	for i := range d.Servers {
 		d.Servers[i].Addr = srvAddr(ports[d.Servers[i].Addr])
 	}
+	for i := range d.Caches {
+		if d.Caches[i].Store == "SHARED_STORE" {
+			// each process has its own badger directory
+			d.Caches[i].Store = fmt.Sprintf("badger:///var/tmp/verif-c16-store-%d-%d", os.Getpid(), ports["S0"])
+		}
+	}
 	return d
 }
 
@@ -479,8 +485,8 @@ func c16Run(r *hx.Run, bin string, seq *c16Seq, rnd *rand.Rand) {
 		origins = append(origins, o.URL())
 	}
 	mkProc := func(name string) *c16Proc {
-		pp := hx.FreePorts(4)
-		return &c16Proc{name: name, ports: map[string]int{"S0": pp[0], "S1": pp[1], "S2": pp[2]}, admin: srvAddr(pp[3]), cl: hx.NewClient(nil)}
+		pp := hx.FreePorts(5)
+		return &c16Proc{name: name, ports: map[string]int{"S0": pp[0], "S1": pp[1], "S2": pp[2], "S3": pp[4]}, admin: srvAddr(pp[3]), cl: hx.NewClient(nil)}
 	}
 	L, F := mkProc("live"), mkProc("fresh")
 	logical := c16Initial(origins)
@@ -493,6 +499,8 @@ func c16Run(r *hx.Run, bin string, seq *c16Seq, rnd *rand.Rand) {
 	}
 	L.pike.AdminAddr = L.admin
 	defer L.pike.Kill()
+	defer os.RemoveAll(fmt.Sprintf("/var/tmp/verif-c16-store-%d-%d", os.Getpid(), L.ports["S0"]))
+	defer os.RemoveAll(fmt.Sprintf("/var/tmp/verif-c16-store-%d-%d", os.Getpid(), F.ports["S0"]))
 	addrsOf := func(p *c16Proc, c *config.PikeConfig) []string {
 		var a []string
 		for _, s := range c.Servers {
@@ -538,6 +546,8 @@ func c16Run(r *hx.Run, bin string, seq *c16Seq, rnd *rand.Rand) {
 	var removedAt time.Time
 	nsteps := 2 + rnd.Intn(5)
 	var script []func() string
+	sharedURI := fmt.Sprintf("/p0/shared?size=900&n=%d", seq.ID)
+	var sharedPre c16Outcome
 	switch seq.Directed {
 	case "best_override_then_remove":
 		script = []func() string{
@@ -575,6 +585,33 @@ func c16Run(r *hx.Run, bin string, seq *c16Seq, rnd *rand.Rand) {
 				return "cache c1 replaced by c2 for S1"
 			},
 		}
+	case "remove_two_servers":
+		script = []func() string{
+			func() string {
+				logical.Servers = append(logical.Servers, config.ServerConfig{Addr: "S2", Locations: []string{"l0"}, Cache: "c0"}, config.ServerConfig{Addr: "S3", Locations: []string{"l1"}, Cache: "c1"})
+				return "srv_add S2, S3"
+			},
+			func() string {
+				logical.Servers = logical.Servers[:len(logical.Servers)-2]
+				removed["S2"] = true
+				return "srv_remove S2 and S3 in one update"
+			},
+		}
+	case "shared_store_cache_removed":
+		script = []func() string{
+			func() string {
+				logical.Caches = append(logical.Caches, config.CacheConfig{Name: "cs1", Size: 8, HitForPass: "5m", Store: "SHARED_STORE"}, config.CacheConfig{Name: "cs2", Size: 8, HitForPass: "5m", Store: "SHARED_STORE"})
+				logical.Servers = append(logical.Servers, config.ServerConfig{Addr: "S2", Locations: []string{"l0"}, Cache: "cs1"}, config.ServerConfig{Addr: "S3", Locations: []string{"l0"}, Cache: "cs2"})
+				return "add caches cs1, cs2 on one store and servers S2->cs1, S3->cs2"
+			},
+			func() string {
+				// a key is cached (and persisted) through S2 before the other cache goes away
+				sharedPre = L.probe(farm, "S2", sharedURI, "")
+				logical.Servers = logical.Servers[:len(logical.Servers)-1]
+				logical.Caches = logical.Caches[:len(logical.Caches)-1]
+				return "remove S3 and its cache cs2 (cs1 keeps using the same store)"
+			},
+		}
 	case "server_remove_then_readd":
 		script = []func() string{
 			func() string {
@@ -610,6 +647,9 @@ func c16Run(r *hx.Run, bin string, seq *c16Seq, rnd *rand.Rand) {
 		if strings.HasPrefix(op, "srv_remove") {
 			removedAt = time.Now()
 		}
+		if seq.Directed == "remove_two_servers" {
+			method = "inplace_write"
+		}
 		if err := L.apply(c16WithPorts(logical, L.ports), method, &pad); err != nil {
 			stop.Store(true)
 			twg.Wait()
@@ -635,6 +675,29 @@ func c16Run(r *hx.Run, bin string, seq *c16Seq, rnd *rand.Rand) {
 	if n := trafficBad.Load(); n > 0 {
 		r.Violate("unchanged_server_disturbed", map[string]string{"apply_methods": mparam}, fmt.Sprintf("%d of %d requests to the unchanged server failed while updates were applied (%v)", n, trafficN.Load(), firstBad.Load()), nil, cs)
 		return
+	}
+	if seq.Directed == "shared_store_cache_removed" {
+		// push the key out of cs1's memory; it must come back from the store the removed cache shared
+		for k := 0; k < 40; k++ {
+			L.probe(farm, "S2", fmt.Sprintf("/p0/fill?size=100&n=%d", seq.ID*1000+k), "")
+		}
+		back := L.probe(farm, "S2", sharedURI, "")
+		r.Add("shared_store_continuity_checks", 1)
+		if sharedPre.Status != 200 || back.Label != "hit" || back.RawSha != sharedPre.RawSha {
+			r.Violate("persisted_entry_of_surviving_cache_lost", map[string]string{"apply_methods": "directed"}, "after a cache sharing the same store was removed, an evicted entry of the surviving cache is no longer served from the store: before "+sharedPre.String()+" | after eviction "+back.String(), nil, cs)
+			return
+		}
+	}
+	if seq.Directed == "remove_two_servers" {
+		time.Sleep(time.Until(removedAt.Add(14 * time.Second)))
+		for _, slot := range []string{"S2", "S3"} {
+			if c, err := net.DialTimeout("tcp", srvAddr(L.ports[slot]), time.Second); err == nil {
+				c.Close()
+				r.Violate("removed_server_still_listening", map[string]string{"removed_together": "2"}, "of two servers removed by one update, "+slot+" still accepts connections 14 s later", nil, cs)
+				return
+			}
+		}
+		r.Add("removed_listeners_checked", 2)
 	}
 	post := L.probe(farm, "S0", stableURI, "gzip")
 	r.Add("retained_hit_checks", 1)
@@ -765,7 +828,7 @@ func c16(r *hx.Run) {
 	n := r.Pick(8, 150)
 	sem := make(chan struct{}, 8)
 	var wg sync.WaitGroup
-	for i := 0; i < n+5 && !r.TooMany(); i++ {
+	for i := 0; i < n+7 && !r.TooMany(); i++ {
 		seq := &c16Seq{ID: i, CheckRemovedListener: i%8 == 0}
 		if i == n {
 			seq.Directed = "best_override_then_remove"
@@ -781,6 +844,12 @@ func c16(r *hx.Run) {
 		}
 		if i == n+4 {
 			seq.Directed = "compress_level_set_then_unset"
+		}
+		if i == n+5 {
+			seq.Directed = "remove_two_servers"
+		}
+		if i == n+6 {
+			seq.Directed = "shared_store_cache_removed"
 		}
 		seed := rnd.Int63()
 		wg.Add(1)
